@@ -263,6 +263,25 @@ def d_stage_mem(old_ir, new_ir, call):
     }
 
 
+def d_sink_alloc(old_ir, new_ir, call):
+    """shape of the scope an allocation is sunk into: a loop whose body reads the buffer may
+    carry values from one iteration to the next (LoopIR_scheduling.DoSinkAlloc has a TODO
+    for exactly this analysis)"""
+    ac = call.kwargs.get("alloc_cursor")
+    alloc = ac._impl._node
+    scope = ac.next()._impl._node
+    kind = "for" if isinstance(scope, LoopIR.For) else "if"
+    reads = False
+    for _, st in irutil._iter_block(list(scope.body) + list(getattr(scope, "orelse", []) or []), (), "body"):
+        if isinstance(st, LoopIR.Reduce) and st.name == alloc.name:
+            reads = True
+        for _, _, e in irutil.stmt_exprs(st):
+            for _, sub in irutil.sub_exprs(e):
+                if isinstance(sub, (LoopIR.Read, LoopIR.WindowExpr)) and sub.name == alloc.name:
+                    reads = True
+    return {"sink_scope": kind, "scope_reads_buffer": reads}
+
+
 def binder_kind(ir, sym_repr):
     """what declares the symbol whose repr() is sym_repr: 'arg' | 'alloc' | 'winstmt' | 'iter' | None"""
     for a in ir.args:
